@@ -36,7 +36,7 @@ def gen_action(r):
     return (r.choice(SEL), None)
 
 
-def gen_session(r, tier):
+def gen_session(r, tier, force=None):
     kind = r.random()
     n = r.choice([0, 1, 2, 3, 5, 8, 12, 20, 40])
     lines = []
@@ -65,7 +65,8 @@ def gen_session(r, tier):
     for _ in range(nsteps):
         x = r.random()
         if x < 0.12:
-            steps.append([(r.choice(['toggle-header', 'hide-header', 'show-header', 'toggle-hscroll', 'clear-screen']), None)])
+            steps.append([(r.choice(['toggle-header', 'hide-header', 'show-header', 'toggle-hscroll', 'clear-screen', 'toggle-input', 'hide-input',
+                                     'show-input', 'toggle-input']), None)])
         elif x < 0.16:
             steps.append([('change-header', r.choice(HEADERS + ['one\ntwo', 'x']))])
         elif x < 0.19:
@@ -92,6 +93,24 @@ def gen_session(r, tier):
         qs = r.choice([[a, b], [b, a], [a, b, a], [a[0], b[0]], [a, 'zz', b], ['ab', 'xy']])
         opts['hlines'] = 0
         steps = steps[:r.randint(0, 3)] + [[('change-query', q)] for q in qs] + steps[:r.randint(0, 2)]
+    if force == 'input' or (force is None and r.random() < 0.08):
+        # the input section is hidden and shown again: every row that held the prompt, the info line, a
+        # header or a list row before must show what the new layout puts there (short lists leave rows that
+        # were remembered as empty)
+        if r.random() < 0.6:
+            lines = lines[:r.choice([1, 2, 3, 5])] or ['alpha', 'beta', 'gamma']
+        if r.random() < 0.5:
+            opts['header'], opts['hlines'] = [], 0
+        if r.random() < 0.6:
+            opts['layout'] = 'reverse-list'
+        mid = [[(r.choice(['hide-input', 'toggle-input']), None)]]
+        for _ in range(r.randint(1, 3)):
+            mid.append([(r.choice(['down', 'up', 'toggle', 'last', 'first', 'put', 'change-query']), None)])
+        mid = [[('put', 'a')] if st[0][0] == 'put' else [('change-query', 'b')] if st[0][0] == 'change-query' else st for st in mid]
+        mid.append([(r.choice(['show-input', 'toggle-input']), None)])
+        mid.append([(r.choice(['down', 'up', 'put']), None)] if r.random() < 0.5 else [('put', 'e')])
+        mid = [[('put', 'o')] if st[0] == ('put', None) else st for st in mid]
+        steps = steps[:r.randint(0, 3)] + mid + steps[:r.randint(0, 2)]
     return dict(opts=opts, lines=lines, steps=steps)
 
 
@@ -208,7 +227,7 @@ def drv_screens(tier, seed, ctx):
     from vcheck import evaluate
     n = 48 if tier == 'quick' else 700
     r = random.Random(seed * 15485863 + 3)
-    scs = [gen_session(r, tier) for _ in range(n)]
+    scs = [gen_session(r, tier, force='input' if i < 6 else None) for i in range(n)]
     notes = []
 
     def work(sc):
